@@ -13,8 +13,8 @@ Init == /\ s = [ids |-> I3, grp |-> {2}, lv |-> [x \in I3 |-> "live"], now |-> 0
                 lm |-> [x \in I3 |-> 0], at |-> [x \in I3 |-> 0],
                 refers |-> [x \in I3 |-> IF x = 3 THEN {1} ELSE {}], casc |-> [x \in I3 |-> {}],
                 member |-> [x \in I3 |-> IF x = 2 THEN {1} ELSE {}], rdmo |-> [x \in I3 |-> {}],
-                name |-> [x \in I3 |-> Nm(x)]]
-        /\ hs = [del |-> [x \in I3 |-> 0], ts |-> [x \in I3 |-> 0], want |-> [x \in I3 |-> {}], dep |-> [x \in I3 |-> {}], rf |-> [x \in I3 |-> {}]]
+                name |-> [x \in I3 |-> Nm(x)], dmo |-> [x \in I3 |-> {}]]
+        /\ hs = [del |-> [x \in I3 |-> 0], ts |-> [x \in I3 |-> 0], want |-> [x \in I3 |-> {}], dep |-> [x \in I3 |-> {}], rf |-> [x \in I3 |-> {}], dm |-> [x \in I3 |-> {}]]
         /\ h = <<>> /\ ok = TRUE
 \* L1 on one transition (operation kind k on x with result res)
 L1(t, k, x, res) ==
